@@ -275,6 +275,9 @@ def run_impl(bdir, d, n, body):
         out["emu"] = verdict(rc, err)
     else:
         out["emu"] = None
+    # everything needed is in `out`: do not let tens of thousands of trace directories pile up in the scratch area
+    import shutil
+    shutil.rmtree(d, ignore_errors=True)
     return out
 
 
@@ -301,7 +304,10 @@ def run_short_pwrite(bdir, d, n, body, shim, limit):
     rc, _, err = run_tool(tool, ([] if n is None else ["-n", str(n)]) + [d], timeout=30,
                           env_extra={"LD_PRELOAD": shim, "SHORT_PWRITE": str(limit)})
     with open(obs, "rb") as f:
-        return rc, f.read(), err
+        data = f.read()
+    import shutil
+    shutil.rmtree(d, ignore_errors=True)
+    return rc, data, err
 
 
 def run_multi(bdir, d, n, bodies):
@@ -322,6 +328,8 @@ def run_multi(bdir, d, n, bodies):
     for s in streams[1:]:
         with open(os.path.join(d, s.relpath, "stream.obs"), "rb") as f:
             outs.append(f.read())
+    import shutil
+    shutil.rmtree(d, ignore_errors=True)
     return rc, outs, err
 
 
